@@ -3,6 +3,8 @@ SPECIFICATION Spec
 CONSTANTS
   ChSC <- Ch_U_RO
   ChCS <- Ch_U_RO
+  SeqBase = 0
+  MidBase = 0
   Budget = 60000
   Workload <- WL_mixed_U_RO
   MaxFlushS = 0
